@@ -130,13 +130,25 @@ func bfsSys(p uint32, items []uint64, v viol) *seqx.Sys {
 	}
 	return &seqx.Sys{
 		Name: fmt.Sprintf("hll(p=%d)", p),
-		NOps: len(items),
+		// operations 0..n-1 offer item op; operations n..2n-1 add (AddAll) a counter holding just item op-n
+		NOps: 2 * len(items),
 		New: func() (interface{}, interface{}) {
 			return hll.NewHyperLogLogInt(p), &model{}
 		},
 		Step: func(i, m interface{}, op int) string {
 			h := i.(*hll.HyperLogLog)
 			md := m.(*model)
+			if op >= len(items) {
+				o := hll.NewHyperLogLogInt(p)
+				o.OfferLong(items[op-len(items)])
+				ob := append([]byte{}, o.GetBytes()...)
+				h.AddAll(o)
+				if !bytes.Equal(o.GetBytes(), ob) {
+					return fmt.Sprintf("AddAll(counter of {%d}) changed its argument", items[op-len(items)])
+				}
+				md.set |= 1 << uint(op-len(items))
+				return ""
+			}
 			before := append([]byte{}, h.GetBytes()...)
 			var changed bool
 			it := items[op]
@@ -170,8 +182,13 @@ func bfsSys(p uint32, items []uint64, v viol) *seqx.Sys {
 			}
 			return ""
 		},
-		Key:      func(i interface{}) string { return string(i.(*hll.HyperLogLog).GetBytes()) },
-		OpLabel:  func(op int) string { return fmt.Sprintf("Offer(%d)", items[op]) },
+		Key: func(i interface{}) string { return string(i.(*hll.HyperLogLog).GetBytes()) },
+		OpLabel: func(op int) string {
+			if op >= len(items) {
+				return fmt.Sprintf("AddAll(counter of {%d})", items[op-len(items)])
+			}
+			return fmt.Sprintf("Offer(%d)", items[op])
+		},
 		MaxDepth: len(items) + 2,
 		ModelKey: func(m interface{}) string { return fmt.Sprint(m.(*model).set) },
 	}
@@ -251,9 +268,12 @@ func mergeChecks(p uint32, items []uint64, triples bool, v viol, evals *int64) {
 			}
 			// AddAll on a copy
 			cp := hll.BuildHyperLogLog(append([]byte{}, bs[a]...))
+			cp.Cardinality() // the estimate is a function of the registers, whenever it was asked before
 			cp.AddAll(cs[b])
 			if !bytes.Equal(cp.GetBytes(), bs[a|b]) {
 				v("addall:union", fmt.Sprintf("p=%d: AddAll of subsets %b and %b differs from the union counter", p, a, b))
+			} else if got, want := cp.Cardinality(), hll.BuildHyperLogLog(append([]byte{}, bs[a|b]...)).Cardinality(); got != want {
+				v("addall:estimate", fmt.Sprintf("p=%d: after AddAll of subsets %b and %b the counter holds the union's registers but estimates %d, a counter rebuilt from the same bytes estimates %d", p, a, b, got, want))
 			}
 			if triples {
 				for c := uint32(0); c < n; c++ {
